@@ -164,7 +164,7 @@ def check(case):
     if worst is not None:
         if bgrid.threshold_tie(Eall, 1e-4):
             raise Inconclusive("tie: gap at the degeneracy threshold")
-        raise Violation("slot-vs-single-point:" + worst[0],
+        raise Violation("slot-vs-single-point",
                         f"{worst[0]}: rel diff {worst[1]:.2e} shapes {worst[2]} vs {worst[3]}; N={N} NKdiv={div} "
                         f"NKFFT={fft} ibands={ibands} irred={irred}")
     if gap0 > 1e-3:
